@@ -113,9 +113,69 @@ class _Normalise(ast.NodeTransformer):
         self.generic_visit(node)
         self.in_function -= 1
         self._explicit_iteration(node)
+        self._guarded_forever_loops(node)
         return node
 
     visit_AsyncFunctionDef = visit_FunctionDef
+
+    @staticmethod
+    def _guarded_forever_loops(fn) -> None:
+        """
+        ``while True:`` whose first statement is the exit test is the loop with that test as its condition:
+
+            while True:                         while not C:
+                if C: break | return [v]            REST
+                REST                            [return v]
+
+        (for ``return`` only when REST holds no ``break``, which would otherwise fall to the code after the loop).
+        """
+
+        def rewrite(block):
+            out = []
+            for st in block:
+                for fld in ("body", "orelse", "finalbody"):
+                    sub = getattr(st, fld, None)
+                    if isinstance(sub, list) and sub and isinstance(sub[0], ast.stmt) and not isinstance(st, (ast.FunctionDef, ast.AsyncFunctionDef, ast.ClassDef)):
+                        setattr(st, fld, rewrite(sub))
+                for h in getattr(st, "handlers", []) or []:
+                    h.body = rewrite(h.body)
+                extra = None
+                if isinstance(st, ast.While) and isinstance(st.test, ast.Constant) and st.test.value is True and not st.orelse and len(st.body) >= 2:
+                    first = st.body[0]
+                    if isinstance(first, ast.If) and not first.orelse and len(first.body) == 1 and isinstance(first.body[0], (ast.Break, ast.Return)):
+                        rest = st.body[1:]
+                        leaves = first.body[0]
+
+                        def own_breaks(stmts):
+                            for s_ in stmts:
+                                if isinstance(s_, ast.Break):
+                                    return True
+                                if isinstance(s_, (ast.For, ast.AsyncFor, ast.While, ast.FunctionDef, ast.AsyncFunctionDef, ast.ClassDef)):
+                                    if own_breaks(getattr(s_, "orelse", []) or []):
+                                        return True
+                                    continue  # a break inside belongs to that loop
+                                for fld in ("body", "orelse", "finalbody"):
+                                    if own_breaks(getattr(s_, fld, []) or []):
+                                        return True
+                                for h in getattr(s_, "handlers", []) or []:
+                                    if own_breaks(h.body):
+                                        return True
+                            return False
+
+                        if isinstance(leaves, ast.Break) or not own_breaks(rest):
+                            cond = first.test
+                            new_test = cond.operand if isinstance(cond, ast.UnaryOp) and isinstance(cond.op, ast.Not) else ast.UnaryOp(op=ast.Not(), operand=cond)
+                            st.test = ast.copy_location(new_test, cond)
+                            ast.fix_missing_locations(st.test)
+                            st.body = rest
+                            if isinstance(leaves, ast.Return):
+                                extra = leaves
+                out.append(st)
+                if extra is not None:
+                    out.append(extra)
+            return out
+
+        fn.body = rewrite(fn.body)
 
     @staticmethod
     def _explicit_iteration(fn) -> None:
@@ -147,13 +207,47 @@ class _Normalise(ast.NodeTransformer):
                     h.body = rewrite(h.body)
                 nxt = block[i + 1] if i + 1 < len(block) else None
                 made = None
+                consumed = 2
+                flag = None
+                restore = None
+                nxt2 = block[i + 2] if i + 2 < len(block) else None
+                if (
+                    isinstance(st, ast.Assign)
+                    and isinstance(nxt, ast.Assign)
+                    and len(nxt.targets) == 1
+                    and isinstance(nxt.targets[0], ast.Name)
+                    and isinstance(nxt.value, ast.Constant)
+                    and nxt.value.value is False
+                    and isinstance(nxt2, ast.While)
+                    and isinstance(nxt2.test, ast.UnaryOp)
+                    and isinstance(nxt2.test.op, ast.Not)
+                    and isinstance(nxt2.test.operand, ast.Name)
+                    and nxt2.test.operand.id == nxt.targets[0].id
+                    and len(nxt2.body) == 1
+                    and isinstance(nxt2.body[0], ast.Try)
+                ):
+                    # the flag-driven spelling:  done = False / while not done: try: v = await it.__anext__()
+                    #                             except StopAsyncIteration: done = True / else: BODY
+                    flag = nxt.targets[0].id
+                    h0 = nxt2.body[0].handlers[0] if len(nxt2.body[0].handlers) == 1 else None
+                    sets_flag = h0 is not None and len(h0.body) == 1 and isinstance(h0.body[0], ast.Assign) and len(h0.body[0].targets) == 1 and isinstance(h0.body[0].targets[0], ast.Name) and h0.body[0].targets[0].id == flag and isinstance(h0.body[0].value, ast.Constant) and h0.body[0].value.value is True
+                    flag_uses = sum(1 for n in ast.walk(fn) if isinstance(n, ast.Name) and n.id == flag)
+                    no_jumps = not any(isinstance(n, (ast.Break, ast.Continue)) for n in ast.walk(nxt2))
+                    if sets_flag and flag_uses == 3 and no_jumps and nxt2.body[0].orelse:
+                        # the same loop in the while-True spelling (the handler leaves the loop)
+                        restore = (h0, h0.body)
+                        h0.body = [ast.copy_location(ast.Break(), h0.body[0])]
+                        nxt = ast.copy_location(ast.While(test=ast.copy_location(ast.Constant(True), nxt2.test), body=nxt2.body, orelse=[]), nxt2)
+                        consumed = 3
+                    else:
+                        flag = None
                 if isinstance(st, ast.Assign) and len(st.targets) == 1 and isinstance(st.targets[0], ast.Name) and isinstance(nxt, ast.While) and isinstance(nxt.test, ast.Constant) and nxt.test.value is True and not nxt.orelse and nxt.body and isinstance(nxt.body[0], ast.Try):
                     it = st.targets[0].id
                     val = st.value
                     is_async = isinstance(val, ast.Call) and isinstance(val.func, ast.Attribute) and val.func.attr == "__aiter__" and not val.args
                     is_sync = isinstance(val, ast.Call) and isinstance(val.func, ast.Name) and val.func.id == "iter" and len(val.args) == 1
                     tr = nxt.body[0]
-                    if (is_async or is_sync) and len(tr.body) == 1 and isinstance(tr.body[0], ast.Assign) and len(tr.handlers) == 1 and not tr.orelse and not tr.finalbody:
+                    if (is_async or is_sync) and len(tr.body) == 1 and isinstance(tr.body[0], ast.Assign) and len(tr.handlers) == 1 and not tr.finalbody:
                         step = tr.body[0].value
                         if is_async:
                             ok_step = isinstance(step, ast.Await) and isinstance(step.value, ast.Call) and isinstance(step.value.func, ast.Attribute) and step.value.func.attr == "__anext__" and isinstance(step.value.func.value, ast.Name) and step.value.func.value.id == it
@@ -162,22 +256,24 @@ class _Normalise(ast.NodeTransformer):
                             ok_step = isinstance(step, ast.Call) and isinstance(step.func, ast.Name) and step.func.id == "next" and len(step.args) == 1 and isinstance(step.args[0], ast.Name) and step.args[0].id == it
                             stop_name = "StopIteration"
                         h = tr.handlers[0]
-                        ok_h = h.type is not None and ast.unparse(h.type).split(".")[-1] == stop_name and len(h.body) == 1 and isinstance(h.body[0], (ast.Break, ast.Return)) and (not isinstance(h.body[0], ast.Return) or h.body[0].value is None)
+                        ok_h = h.type is not None and ast.unparse(h.type).split(".")[-1] == stop_name and len(h.body) == 1 and isinstance(h.body[0], (ast.Break, ast.Return)) and (not isinstance(h.body[0], ast.Return) or not any(isinstance(b_, ast.Break) for s_ in list(tr.orelse) + nxt.body[1:] for b_ in ast.walk(s_)))
                         uses = sum(1 for n in ast.walk(fn) if isinstance(n, ast.Name) and n.id == it)
                         if ok_step and ok_h and uses == 2:
                             source = val.func.value if is_async else val.args[0]
                             loop_cls = ast.AsyncFor if is_async else ast.For
-                            body = nxt.body[1:] or [ast.Pass()]
+                            body = (list(tr.orelse) + nxt.body[1:]) or [ast.Pass()]  # try/else: runs after a successful step, outside the handler
                             made = [loop_cls(target=tr.body[0].targets[0], iter=source, body=body, orelse=[], lineno=nxt.lineno, col_offset=nxt.col_offset)]
                             if isinstance(h.body[0], ast.Return):
-                                made.append(ast.Return(value=None, lineno=nxt.lineno, col_offset=nxt.col_offset))
+                                made.append(ast.Return(value=h.body[0].value, lineno=nxt.lineno, col_offset=nxt.col_offset))  # the handler's return runs when the iterator is exhausted (no break leaves the loop otherwise)
                 if made is not None:
                     for m in made:
                         ast.copy_location(m, nxt)
                         ast.fix_missing_locations(m)
                     out.extend(made)
-                    i += 2
+                    i += consumed
                     continue
+                if restore is not None:
+                    restore[0].body = restore[1]  # not the protocol after all: the flag loop stays as written
                 out.append(st)
                 i += 1
             return out
